@@ -1,47 +1,201 @@
 //! C07: the memory limit bounds allocation.
 //!
 //! case lines (see lean/DdsModel/DdsModel/Drv/C07.lean):
-//!   full <fmt> <ch> <pr> <w> <h> <lim>   |   rect <fmt> <ch> <pr> <W> <H> <x> <y> <w> <h> <lim>
+//!   full <fmt> <ch> <pr> <w> <h> <lim> [<view>]   |   rect <fmt> <ch> <pr> <W> <H> <x> <y> <w> <h> <lim> [<view>]
 //! `lim`: a number, `d` (default), `n` (need), `n-1`.
+//! `view` = the caller's output view the surface is decoded into (the model's answer does not depend on it:
+//! no decode path may allocate because of the shape of the output):
+//!   absent / `c`        contiguous (`row_pitch` = bytes per row)
+//!   `p<N>`              `ImageViewMut::new_with` with `row_pitch` = bytes per row + N
+//!   `x<l>:<t>:<r>:<b>`  `ImageViewMut::new(...).cropped(...)` out of an image with margins l/t/r/b pixels
+//!   `cube`              (full only) the surface is every face of a cube-map file read with
+//!                       `Decoder::read_cube_map` into the 4w x 3h atlas (six decodes into cropped views,
+//!                       each with the whole `memory_limit`)
 //! implementation result: `<res> lim=<limit used> need=<observed need> peak=<measured peak> allocs=<count>`
 //! model result:          `<res> lim=<limit used> need=<model need> granted=<bytes handed to the allocator>`
 //! compared by tools/propcfg/C07.py as a refinement (observed need <= model need, peak <= granted + 4096).
 //!
 //! The decode runs on an intact synthetic stream; heap traffic of the calling thread is measured by
-//! the counting global allocator (`alloc_count.rs`); the output image is allocated before the
-//! measurement starts and the reader does not allocate.
+//! the counting global allocator (`alloc_count.rs`); the output image (and the `Decoder` of a `cube`
+//! case) is built before the measurement starts and the reader does not allocate.
 //!
 //! Oracle (implementation alone): measured peak <= memory_limit + 4096; the result is
-//! MemoryLimitExceeded iff memory_limit < observed need (bisection, `c06::observed_need`);
-//! with the default limit a full 4096x4096 decode succeeds.
-use crate::alloc_count;
+//! MemoryLimitExceeded iff memory_limit < observed need (bisection on the limit with the same call and
+//! the same output view); with the default limit a full 4096x4096 decode succeeds.
+use crate::alloc_count::{self, Measured};
 use crate::c06::{self, CallK, CallSpec, Chunk, FaultReader, FORMATS, REPRESENTATIVES};
 use crate::common::*;
+use dds::header::Header;
+use dds::*;
+use std::cell::RefCell;
+use std::collections::HashMap;
 
 pub const SLACK: usize = 4096;
+
+/// the caller's output view
+#[derive(Clone, Debug, PartialEq)]
+pub enum View {
+    Contig,
+    Pad(usize),
+    Crop { l: u32, t: u32, r: u32, b: u32 },
+    Cube,
+}
+impl View {
+    pub fn parse(tok: &str, call: &CallK) -> Option<View> {
+        if tok == "c" {
+            return Some(View::Contig);
+        }
+        if tok == "cube" {
+            return match call {
+                CallK::Full { .. } => Some(View::Cube),
+                _ => None,
+            };
+        }
+        if let Some(n) = tok.strip_prefix('p') {
+            return Some(View::Pad(p_usize(n)?));
+        }
+        if let Some(m) = tok.strip_prefix('x') {
+            let v: Vec<&str> = m.split(':').collect();
+            if v.len() != 4 {
+                return None;
+            }
+            return Some(View::Crop { l: p_u32(v[0])?, t: p_u32(v[1])?, r: p_u32(v[2])?, b: p_u32(v[3])? });
+        }
+        None
+    }
+    /// size of the image the caller owns (the view is all or a part of it) and its row pitch
+    fn owned(&self, spec: &CallSpec) -> Option<(Size, usize)> {
+        let s = spec.image_size();
+        let bpp = spec.color.bytes_per_pixel() as usize;
+        let (size, pad) = match *self {
+            View::Contig => (s, 0),
+            View::Pad(n) => (s, n),
+            View::Crop { l, t, r, b } => (
+                Size::new(s.width.checked_add(l)?.checked_add(r)?, s.height.checked_add(t)?.checked_add(b)?),
+                0,
+            ),
+            View::Cube => (Size::new(s.width.checked_mul(4)?, s.height.checked_mul(3)?), 0),
+        };
+        let pitch = (size.width as usize).checked_mul(bpp)?.checked_add(pad)?;
+        let len = pitch.checked_mul(size.height as usize)?;
+        if len > (3usize << 30) {
+            return None;
+        }
+        Some((size, pitch))
+    }
+    /// number of surfaces the call reads from the stream
+    fn surfaces(&self) -> u64 {
+        if *self == View::Cube { 6 } else { 1 }
+    }
+}
+
+/// One call of the real decoder into the given view of `out`; only the decode itself is measured.
+fn decode_view(
+    spec: &CallSpec,
+    view: &View,
+    reader: &mut FaultReader,
+    out: &mut [u8],
+    limit: usize,
+) -> (Result<(), DecodingError>, Measured) {
+    let mut options = DecodeOptions::default();
+    options.memory_limit = limit;
+    let s = spec.image_size();
+    let (owned, pitch) = view.owned(spec).expect("harness: output layout");
+    if *view == View::Cube {
+        let header = Header::new_cube_map(s.width, s.height, spec.format);
+        let mut decoder = match Decoder::from_header_with(reader, header, spec.format) {
+            Ok(d) => d,
+            Err(e) => return (Err(e), Measured { peak: 0, total: 0, count: 0 }),
+        };
+        decoder.options = options;
+        let image = ImageViewMut::new(out, owned, spec.color).expect("harness: cannot build the atlas view");
+        return alloc_count::measure(|| decoder.read_cube_map(image));
+    }
+    let image = match *view {
+        View::Crop { l, t, .. } => ImageViewMut::new(out, owned, spec.color)
+            .expect("harness: cannot build the output image")
+            .cropped(Offset::new(l, t), s),
+        _ => ImageViewMut::new_with(out, pitch, s, spec.color).expect("harness: cannot build the output view"),
+    };
+    match spec.call {
+        CallK::Full { .. } => alloc_count::measure(|| dds::decode(reader, image, spec.format, &options)),
+        CallK::Rect { sw, sh, x, y, .. } => alloc_count::measure(|| {
+            dds::decode_rect(reader, image, Offset::new(x, y), Size::new(sw, sh), spec.format, &options)
+        }),
+    }
+}
+
+thread_local! {
+    static NEED_CACHE: RefCell<HashMap<String, u64>> = RefCell::new(HashMap::new());
+}
+
+/// The implementation's observed need of this call into this view: the least `memory_limit` for which
+/// it does not fail with `MemoryLimitExceeded` (galloping + bisection; the probes run on an empty stream,
+/// so they stop at the first read; 0 if the call fails the same way for every limit). Same procedure as
+/// `c06::observed_need`, with the output view as part of the call.
+fn observed_need(spec: &CallSpec, view: &View, out: &mut [u8]) -> u64 {
+    let key = format!("{} {view:?}", spec.key());
+    if let Some(v) = NEED_CACHE.with(|c| c.borrow().get(&key).copied()) {
+        return v;
+    }
+    let mut probe = |limit: u64| -> bool {
+        let mut r = FaultReader::new(0, 0, None, false, Chunk::Full, 1);
+        let (res, _) = decode_view(spec, view, &mut r, out, limit as usize);
+        matches!(res, Err(DecodingError::MemoryLimitExceeded))
+    };
+    let v = if probe(u64::MAX) || !probe(0) {
+        0
+    } else {
+        // invariant: probe(lo) = mem, probe(hi) = not mem
+        let mut lo = 0u64;
+        let mut hi = 1u64;
+        while probe(hi) {
+            lo = hi;
+            hi = hi.saturating_mul(2);
+        }
+        while hi - lo > 1 {
+            let mid = lo + (hi - lo) / 2;
+            if probe(mid) {
+                lo = mid;
+            } else {
+                hi = mid;
+            }
+        }
+        hi
+    };
+    NEED_CACHE.with(|c| c.borrow_mut().insert(key, v));
+    v
+}
 
 pub fn run(line: &str) -> Option<(String, Vec<String>)> {
     let t = toks(line);
     let (spec, rest) = CallSpec::parse(&t)?;
-    if rest.len() != 1 {
-        return None;
-    }
-    let (out_len, pitch) = spec.out_layout(0)?;
-    let mut out = vec![0u8; out_len];
-    let need = c06::observed_need(&spec, &mut out, pitch);
-    let limit = c06::resolve_limit(rest[0], &spec, &mut out, pitch)?;
-    let bytes = spec.surface_bytes().unwrap_or(u64::MAX / 4);
+    let view = match rest.len() {
+        1 => View::Contig,
+        2 => View::parse(rest[1], &spec.call)?,
+        _ => return None,
+    };
+    let (owned, pitch) = view.owned(&spec)?;
+    let mut out = vec![0u8; pitch * owned.height as usize];
+    let need = observed_need(&spec, &view, &mut out);
+    let limit = match rest[0] {
+        "d" => DecodeOptions::default().memory_limit as u64,
+        "n" => need,
+        "n-1" => need.saturating_sub(1),
+        tok => p_u64(tok)?,
+    };
+    let bytes = spec.surface_bytes().and_then(|b| b.checked_mul(view.surfaces())).unwrap_or(u64::MAX / 4);
     let mut reader = FaultReader::new(0, bytes, None, false, Chunk::Full, 1);
     reader.quiet = true;
-    let (res, m) = alloc_count::measure(|| spec.decode(&mut reader, &mut out, pitch, limit as usize));
+    let (res, m) = decode_view(&spec, &view, &mut reader, &mut out, limit as usize);
     let name = c06::res_name(&res);
     drop(res);
 
     let mut o = vec![];
     if m.peak as u64 > limit.saturating_add(SLACK as u64) {
         o.push(format!(
-            "peak heap use {} exceeds memory_limit {} + {} ({} allocations, {} bytes in total)",
-            m.peak, limit, SLACK, m.count, m.total
+            "peak heap use {} exceeds memory_limit {} + {} ({} allocations, {} bytes in total; output view {:?}, row pitch {})",
+            m.peak, limit, SLACK, m.count, m.total, view, pitch
         ));
     }
     let is_mem = name == "mem";
@@ -88,6 +242,53 @@ pub fn gen(seed: u64, thorough: bool) -> Vec<String> {
             }
         }
     }
+    // ---- output views: the caller's image need not be contiguous. Every format, full decodes in the
+    // natural colour (the one with a specialised whole-image decoder, if any) into every kind of view
+    // x limits; other colours and rects with one view per case.
+    let view_sizes: Vec<(u32, u32)> = if thorough {
+        vec![(1, 1), (7, 5), (64, 64), (257, 129), (1024, 16), (16, 1024), (3000, 3)]
+    } else {
+        vec![(1, 1), (7, 5), (64, 64), (257, 129)]
+    };
+    let strided = |rng: &mut Rng| -> String {
+        match rng.below(3) {
+            0 => format!("p{}", *rng.pick(&[1usize, 3, 16, 64, 1000])),
+            1 => format!("x{}:{}:{}:{}", rng.below(4), rng.below(3), 1 + rng.below(3), rng.below(3)),
+            _ => format!("x{}:{}:0:{}", 1 + rng.below(5), rng.below(3), rng.below(3)),
+        }
+    };
+    for (name, _) in FORMATS {
+        let (nc, np) = c06::natural_colour(name);
+        for &(w, h) in &view_sizes {
+            let pad = *rng.pick(&[1usize, 4, 64, 4096]);
+            let views = [format!("p{pad}"), "x2:1:3:2".to_string(), "x0:0:1:0".to_string(), "cube".to_string()];
+            for lim in ["0", "1024", "n-1", "n"] {
+                for view in &views {
+                    v.push(format!("full {name} {nc} {np} {w} {h} {lim} {view}"));
+                }
+                // another colour
+                let (ch, pr) = (rng.below(4) as u32, rng.below(3) as u32);
+                let view = if rng.chance(1, 4) { "cube".to_string() } else { strided(&mut rng) };
+                v.push(format!("full {name} {ch} {pr} {w} {h} {lim} {view}"));
+            }
+            // rects: interior, full-width strip, everything
+            let (x, y) = (w / 3, h / 3);
+            let rects = [
+                format!("{w} {h} {x} {y} {} {}", (w - x + 1) / 2, (h - y + 1) / 2),
+                format!("{w} {h} 0 {} {w} {}", h / 2, (h - h / 2).min(5)),
+                format!("{w} {h} 0 0 {w} {h}"),
+            ];
+            for r in &rects {
+                for lim in ["0", "n-1", "n"] {
+                    let view = strided(&mut rng);
+                    v.push(format!("rect {name} {nc} {np} {r} {lim} {view}"));
+                    let (ch, pr) = (rng.below(4) as u32, rng.below(3) as u32);
+                    let view = strided(&mut rng);
+                    v.push(format!("rect {name} {ch} {pr} {r} {lim} {view}"));
+                }
+            }
+        }
+    }
     // larger surfaces for the representatives; 4096x4096 with the default limit
     let big: &[(u32, u32)] = if thorough { &[(2048, 2048), (4096, 4096)] } else { &[(1024, 1024)] };
     for name in REPRESENTATIVES {
@@ -96,6 +297,7 @@ pub fn gen(seed: u64, thorough: bool) -> Vec<String> {
             for lim in ["n-1", "n", "d"] {
                 v.push(format!("full {name} {nc} {np} {w} {h} {lim}"));
                 v.push(format!("rect {name} {nc} {np} {w} {h} 1 1 {} {} {lim}", w - 2, h - 2));
+                v.push(format!("full {name} {nc} {np} {w} {h} {lim} p64"));
             }
         }
     }
@@ -107,6 +309,7 @@ pub fn gen(seed: u64, thorough: bool) -> Vec<String> {
         if thorough {
             v.push(format!("full {name} 0 0 4096 4096 d"));
             v.push(format!("rect {name} {nc} {np} 4096 4096 0 0 4096 4096 d"));
+            v.push(format!("full {name} {nc} {np} 4096 4096 d p16"));
         }
     }
     // PRNG
@@ -121,14 +324,23 @@ pub fn gen(seed: u64, thorough: bool) -> Vec<String> {
             0 => format!("{}", rng.below(200000)),
             k => lims[k as usize + 1].to_string(),
         };
-        if rng.chance(1, 2) {
-            v.push(format!("full {name} {ch} {pr} {w} {h} {lim}"));
+        // half of the cases into a contiguous image, the others into a strided view
+        let full = rng.chance(1, 2);
+        let view = match rng.below(8) {
+            0..=3 => String::new(),
+            4 if full && w <= 512 && h <= 512 => " cube".to_string(),
+            _ => format!(" {}", strided(&mut rng)),
+        };
+        // the natural colour of the format in a third of the cases
+        let (ch, pr) = if rng.chance(1, 3) { c06::natural_colour(name) } else { (ch, pr) };
+        if full {
+            v.push(format!("full {name} {ch} {pr} {w} {h} {lim}{view}"));
         } else {
             let x = rng.below(w as u64) as u32;
             let y = rng.below(h as u64) as u32;
             let rw = 1 + rng.below((w - x) as u64) as u32;
             let rh = 1 + rng.below((h - y) as u64) as u32;
-            v.push(format!("rect {name} {ch} {pr} {w} {h} {x} {y} {rw} {rh} {lim}"));
+            v.push(format!("rect {name} {ch} {pr} {w} {h} {x} {y} {rw} {rh} {lim}{view}"));
         }
     }
     v
